@@ -521,6 +521,7 @@ def check_C09(res, ctx):
     from . import conccheck
     conccheck.check_listkeys(res, ctx, [1, 2, 3])
     conccheck.check_kv_schedules(res, ctx, [1])
+    conccheck.check_calls_during_merge(res, ctx, [2] if ctx.quick else [1, 2, 3])
     runs = [(1, 0), (2, 0), (3, 0)] if ctx.quick else [(1, 0), (2, 0), (3, 0), (1, 1), (3, 1)]
     secs = 12 if ctx.quick else 120
     results = core.parallel_map(lambda x: conccheck.run_race(ctx, secs, 8, x[0], x[1], ctx.seed, race=True), runs, workers=3)
